@@ -438,8 +438,24 @@ def seq_index(seq, idx):
             return None
         return s + c * d if c >= 0 else s + (n + c) * d
     if T._numeric_like(idx):
-        return s + idx * d
+        if T.is_nonneg(idx) or _loop_index_like(idx):
+            return s + idx * d
+        # Python indexing: a negative index counts from the end
+        return T.mk_ite(T.mk_cmp('<', idx, Term.num(0)), s + (n + idx) * d, s + idx * d)
     return None
+
+
+def _loop_index_like(t):
+    """sums of loop indices (idx atoms of range loops) and non-negative terms"""
+    for m, c in t.p.items():
+        if c < 0:
+            return False
+        for a, e in m:
+            if a.kind == 'idx':
+                continue
+            if not T.is_nonneg(Term.of(a)):
+                return False
+    return True
 
 
 def ex_Tuple(self, node, fr):
